@@ -49,7 +49,7 @@ Proof. vm_compute. reflexivity. Qed.
 
 (* the widened grammar:
    { readonly a?: A.B<T>; [k: string]: typeof x.y; m<const P extends T = "s", in out Q>(this: T, ...r: U[]): r is V, -readonly [K in keyof T as `p${K}`]+?: T[K] }
-   | (abstract new <P extends keyof T>(x?: import("m").C) => void) | [first: T, second?: U] | (T extends infer U ? U : never) *)
+   | (abstract new <P extends keyof T>(x?: import("m").C) => void) | [first: T, second?: U] | (T extends infer U extends any[] ? U : never) *)
 Definition ex_wide : ty :=
   TUnion (TUnion (TUnion
     (TObj [TMProp [2; 120] true (TRef 100 [101] [TRef 103 [] []]) 0;
@@ -60,12 +60,12 @@ Definition ex_wide : ty :=
                     (TIdx (TRef 103 [] []) (TRef 105 [] [])) 2])
     (TParen (TFn 2 [TTParam [] 107 true false (TKeyof false (TRef 103 [] [])) TPrim] [TParam false 109 true true (TImport false [102] [])] (TLit KVoid))))
     (TTuple [TElem false 123 false false (TRef 103 [] []); TElem false 124 true false (TRef 104 [] [])]))
-    (TParen (TCond (TRef 103 [] []) (TInfer 104) (TRef 104 [] []) TPrim)).
+    (TParen (TCond (TRef 103 [] []) (TInferC 104 (TArr TPrim)) (TRef 104 [] []) TPrim)).
 Example ex_wide_wf : wfb ex_wide = true /\ lvl_ok ex_wide LLowest = true.
 Proof. vm_compute. auto. Qed.
 Example ex_wide_skip : skip_type LLowest fl0 (R true ex_wide [(KSemi,false)]) = Ok [(KSemi,false)].
 Proof. vm_compute. reflexivity. Qed.
-Example ex_wide_len : length (R true ex_wide []) = 119%nat.
+Example ex_wide_len : length (R true ex_wide []) = 123%nat.
 Proof. vm_compute. reflexivity. Qed.
 (* return position: asserts this is T *)
 Example ex_ret : wf_ret_with wfb (TAsserts (-1) true (TRef 103 [] [])) = true /\
